@@ -55,7 +55,7 @@ def run_exact(tier, seed):
 
 
 def exact_cached(tier, seed):
-    key = ["exact", tier, seed, fw.tree_hash(), _files_hash(SPEC_FILES(['Teal', 'Cfg', 'Avm', 'Reps', 'PathSem', 'PathReach', 'ExactWalk', 'ExactJudge'])), _files_hash(HARNESS_FILES()), SIZES[tier]]
+    key = ["exact", tier, seed, fw.tree_hash(), _files_hash(SPEC_FILES(['Teal', 'Cfg', 'Avm', 'Reps', 'PathSem', 'PathReach', 'ExactWalk', 'ExactJudge'])), _files_hash(HARNESS_FILES(['checks/exact.py'])), SIZES[tier]]
 
     def build():
         w, tot = run_exact(tier, seed)
